@@ -182,7 +182,6 @@ def sweepDiffs (m d : Doc) (cap : Nat) : List (Nat × String × String) := Id.ru
 def evalCase (s : S) (d : Doc) : IO Unit := do
   let some t := s.tree | IO.println s!"R {s.gen} {s.idx} error=no-tree"
   let tbl := widthTable d []
-  let env : Env := { cfg := s.cfg, wd := wdOf tbl }
   let mut fields : List String := []
   let mut extra : List String := []
   -- renderer + strip against the implementation's output
@@ -201,7 +200,7 @@ def evalCase (s : S) (d : Doc) : IO Unit := do
     fields := (if scale s.cfg.tab d1 == d then "scale=eq" else "scale=diff") :: fields
   | none => pure ()
   -- printer model
-  match printDoc env t with
+  match printDoc s.cfg (wdOf tbl) t with
   | .ok (m, calls) =>
     if let some c := s.cnt then
       fields := (if c == calls then "count=eq" else s!"count=diff:{calls}:{c}") :: fields
@@ -224,8 +223,7 @@ def evalCase (s : S) (d : Doc) : IO Unit := do
 
 def evalRange (s : S) (a b : Nat) (res : Option (Nat × Nat × String)) : IO Unit := do
   let some t := s.etree | IO.println s!"R {s.gen} {s.idx} error=no-tree"
-  let env : Env := { cfg := s.cfg, wd := fun x => x.length }
-  let m := formatRange env s.src t a b
+  let m := formatRange s.cfg (fun x => x.length) s.src t a b
   match m, res with
   | .refused, none => IO.println s!"R {s.gen} {s.idx} range=eq"
   | .ok rs re txt, some (rs', re', txt') =>
